@@ -225,6 +225,11 @@ theorem applySticky_unique (w : World) (op : StickyOp) (iname : String) (who : I
       · exact hu
       · simp only [setInst_sealed]; exact hu
 
+theorem applyReconf_sealed (w : World) (n : String) (f : Inst → Inst) :
+    (applyReconf w n f).1.sealed = w.sealed := by
+  unfold applyReconf
+  split <;> rfl
+
 /-- **apply_preserves_unique**: whatever command is executed (init, continuation — honest or
 forged —, seal event, sticky operation), the sealed table keeps its nonces unique. -/
 theorem apply_preserves_unique (w : World) (c : Cmd) (hu : NoncesUnique w.sealed) :
@@ -232,6 +237,8 @@ theorem apply_preserves_unique (w : World) (c : Cmd) (hu : NoncesUnique w.sealed
   cases c with
   | inst name i => exact hu
   | query a => exact hu
+  | setTtl name ttl => simp only [apply]; rw [applyReconf_sealed]; exact hu
+  | setCache name max => simp only [apply]; rw [applyReconf_sealed]; exact hu
   | init iname who method limit sess now env => exact applyInit_unique w iname who method limit sess now env hu
   | cont iname req env => exact applyCont_unique w iname req env hu
   | «seal» iname aad session tok pt => exact applySeal_unique w iname aad session tok pt hu
